@@ -142,11 +142,13 @@ fn may_match_ellipsis_impl<'p, 't: 'p, D: Doc + 't>(
     return Some(ControlFlow::Continue);
   }
   loop {
+    // the candidate is tried on a copy: the caller matches the one that fits again, and a candidate that does not
+    // fit leaves no bindings behind
     if matches!(
       match_node_impl(
         goal_children.peek().unwrap(),
         cand_children.peek().unwrap(),
-        agg,
+        &mut agg.fork(),
         strictness,
       ),
       MatchOneNode::MatchedBoth
